@@ -2,7 +2,7 @@
 from __future__ import annotations
 
 
-EXPLANATION = '(R1) Loader.load fold: the level cap is computed from the mesh predicates before the readers are initialised, bounds the level loop, is absent without a level predicate and rebuilt on every load; (R2) leaf flag over {son} x {below / at the cap}; (R3) find_max_amr_level on a list model of the levels 1..6 over 7 predicate shapes (bands, single level, lower bound): the highest accepted level; hilbert_cpu_list hands lmax and levelmax on; (R4) a level-limited reload starts from empty per-variable pieces (descriptor_to_variables history; two-load history of the loader). (R5) cells of every traversed level carry their stored values (body fold, shared); the loader scenarios use a concrete level predicate with a lower bound, so a level mask applied with the wrong origin shows in the traversal. The AMR level header is folded over a history of loads (same level again after a new load / a new file).'
+EXPLANATION = '(R1) Loader.load fold: the level cap is computed from the mesh predicates before the readers are initialised, bounds the level loop, is absent without a level predicate and rebuilt on every load; (R2) leaf flag over {son} x {below / at the cap}; (R3) find_max_amr_level on a list model of the levels 1..6 over 7 predicate shapes (bands, single level, lower bound): the highest accepted level; hilbert_cpu_list hands lmax and levelmax on; (R4) a level-limited reload starts from empty per-variable pieces (descriptor_to_variables history; two-load history of the loader). (R5) cells of every traversed level carry their stored values (body fold, shared); the loader scenarios use a concrete level predicate with a lower bound, so a level mask applied with the wrong origin shows in the traversal. The AMR level header is folded over a history of loads (same level again after a new load / a new file). (R6) the AMR reader\'s file list is reset at every (re)initialisation (shared with C15.R2).'
 NOT_DECIDED = "predicates that are not monotone in a way the 7 shapes do not represent; levelmax above the model's 6"
 TRUSTED = ('CPython ast', 'the interpreter sa/models.py (ModelEval) and its library models')
 TECHNIQUE = 'static analysis: finite-scenario folding of the loader and of the level-cap helper on a list model'
